@@ -613,6 +613,12 @@ impl ObjectHandle {
     Self { ptr }
   }
 
+  /// The location of the block behind this handle
+  #[cfg(feature = "verif")]
+  pub fn verif_loc(&self) -> *const u8 {
+    self.ptr.as_ptr()
+  }
+
   /// Retrieve the header from this array
   #[inline]
   fn header(&self) -> &ObjHeader {
